@@ -102,7 +102,15 @@ def str_check(prop, tier, seed):
     return engine_check(prop, tier, seed, B.str_run, B.STR_MISMATCH_PROPS, STR_ASSUMPTIONS, "string_driver", "string_check")
 
 
-ENGINE_BINS = {"arena": ("arena_driver", "arena_check"), "vec": ("vec_driver", "vec_check"),
+RULES = {
+    "arena_driver": "random histories from one PRNG state (seed, history id), debug and release builds, MIN_ALIGN in {1,2,4,8,16}; a history is non-trivial if it reached the slow path, an allocator refusal, an in-place grow/shrink copy, a multi-chunk reset, a failed initialiser or a limit refusal; distinct by hash of its (op,size,align) sequence",
+    "vec_driver": "random programs over 26 Vec operations from one PRNG state (seed, history id), debug and release, run on bumpalo's Vec, std's Vec and the extracted model; each history ends with a zero-sized-element section; non-trivial = more than 6 operations or a panic/refusal reached; plus the C19 boundary grid",
+    "string_driver": "random programs over the String operations (every byte index, boundary or not; 1-4 byte characters) on bumpalo's String, std's String and the extracted model, plus the decoder sweeps (all byte strings up to length 3 over a structural alphabet, random longer ones, u16 sequences)",
+    "box_driver": "generated Box scenarios on bumpalo's Box and std's Box with a drop ledger and the global-allocator log",
+    "borrow_probe": "every well-scoped program of the Borrow.v client language up to the tier's length, for 10 kinds of arena-backed value, rendered to Rust and judged by rustc (--emit=metadata) against the crate built from /repo; verdicts compared with the extracted accepts/drun; plus fixed trait, ordinary and negative probes. Deterministic (no PRNG).",
+}
+ENGINE_BINS = {"borrow": ("borrow_probe", "borrow_check"),
+               "arena": ("arena_driver", "arena_check"), "vec": ("vec_driver", "vec_check"),
                "str": ("string_driver", "string_check"), "box": ("box_driver", "box_check")}
 
 
@@ -202,7 +210,7 @@ def engine_check(prop, tier, seed, run_fn, table, assumptions, driver, checker):
         "proof_broken": broken,
         "evaluations": tot["histories"],
         "distinct_nontrivial": tot["distinct_nontrivial"],
-        "rule": "(engine %s) random histories from one PRNG state (seed, history id), debug and release builds, MIN_ALIGN in {1,2,4,8,16}; a history is non-trivial if it reached the slow path, an allocator refusal, an in-place grow/shrink copy, a multi-chunk reset, a failed initialiser or a limit refusal; distinct by hash of its (op,size,align) sequence" % driver,
+        "rule": RULES.get(driver, RULES["arena_driver"]),
         "traces_validated_against_impl": tot["histories"],
         "operations": tot["ops"],
         "histogram": histo,
@@ -218,6 +226,17 @@ def engine_check(prop, tier, seed, run_fn, table, assumptions, driver, checker):
         print(v)
     B.write_evidence(prop, tier, seed, "proof", cov, assumptions, time.time() - t0, len(violations))
     return 1 if violations else 0
+
+
+BORROW_ASSUMPTIONS = [
+    "rustc's type and borrow checking (the oracle the property names) is what decides acceptance; the probe asks it with --emit=metadata",
+    "the client language of coq/Borrow.v (one arena; bindings, uses, reset, chunk iteration, drop/move, two thread patterns) stands for the misuse families of the property; richer programs are covered by the fixed ordinary/negative probes only",
+    "tools/sigfacts.py reads the signatures textually; what it cannot recognise makes the obligation fail rather than pass",
+]
+
+
+def borrow_check(prop, tier, seed):
+    return engine_check(prop, tier, seed, B.borrow_run, B.BORROW_MISMATCH_PROPS, BORROW_ASSUMPTIONS, "borrow_probe", "borrow_check")
 
 
 def multi_check(prop, tier, seed):
@@ -240,6 +259,8 @@ def check(prop, tier, seed):
         return str_check(prop, tier, seed)
     if prop in B.BOX_PROPS:
         return box_check(prop, tier, seed)
+    if prop in B.BORROW_PROPS:
+        return borrow_check(prop, tier, seed)
     print("no engine for %s" % prop, file=sys.stderr)
     return 2
 
